@@ -6,7 +6,7 @@ META = {
     "engine": "HTMLEscape",
     "technique": "TLA+ reference + implementation-shaped two-pass model checked exhaustively by TLC; every string of the space replayed into scriggo.HTMLEscape/builtin.HtmlEscape; outputs judged by TLC Trace spec",
     "level": "model_checking",
-    "level_text": "TLC model-checks the two-pass algorithm (transcribed loop by loop) against the reference 'exactly the five replaced, decodes back' for every string over the 7-symbol alphabet up to length 6 (quick) / 7 (thorough); the same strings (length <=5 / <=7) plus seeded random byte strings are run through the real functions and each output is judged by the TLA+ reference.",
+    "level_text": "TLC model-checks the two-pass algorithm (transcribed loop by loop) against the reference 'exactly the five replaced, decodes back' for every string over the 7-symbol alphabet up to length 6 (quick) / 7 (thorough); the same strings (length <=5 / <=7), every run c1^n c2^m (n <= 70 / 140, m <= 2: the lengths where an implementation may size a buffer or switch strategy) plus seeded random byte strings are run through the real functions and each output is judged by the TLA+ reference.",
     "level_note": "Trusted: TLC, the Json community module, the 40-line Go driver that only calls the functions and logs. Exhaustive to length 7, not 10 (282M strings is beyond TLC here); the algorithm's control state depends only on the index of the first special and whether the running growth exceeds 4, which length 7 exhausts.",
     "design_ref": "7/C24",
 }
@@ -15,7 +15,7 @@ META = {
 def run(ctx, replay_ids=None):
     return rig.functional(
         ctx, fams=["lib2"], mc_module="MC_HTMLEscape",
-        mc_consts={"MaxLen": ctx.pick(6, 7), "GenLen": ctx.pick(5, 7)},
+        mc_consts={"MaxLen": ctx.pick(6, 7), "GenLen": ctx.pick(5, 7), "MaxRun": ctx.pick(70, 140)},
         mc_invs=["ImplMeetsRef", "NoZeroByte", "LenExact"],
         sub="c24", trace_module="Trace_HTMLEscape",
         extra=ctx.pick(2000, 50000),
@@ -23,7 +23,7 @@ def run(ctx, replay_ids=None):
         corrupt=corrupt,
         nontrivial=lambda o: o["out"] != o["s"],
         sample=lambda o: {"fn": o["fn"], "s": rig.b2s(o["s"]), "out": rig.b2s(o["out"])},
-        rule="all strings over {< > & \" ' a ;} up to GenLen (exhaustive, exported by TLC) x 2 entry points, plus seeded random byte strings; non-trivial = output differs from input",
+        rule="all strings over {< > & \" ' a ;} up to GenLen and all runs c1^n c2^m with n <= MaxRun, m <= 2 (exhaustive, exported by TLC) x 2 entry points, plus seeded random byte strings; non-trivial = output differs from input",
         replay_ids=replay_ids,
     )
 
